@@ -27,6 +27,13 @@ def oracle(tier, rng, seeds):
             K.check_area_preservation(drv, poly, rng.randrange(12), fails, st); n += 1
         if len(fails) > 10:
             break
+    # polygons anchored at the special points of the face plane, resolved 4x finer (edges through the face centre have a kink there)
+    for _ in range(40 if tier == 'quick' else 1500):
+        poly = K.special_face_polygon(rng, drv)
+        if poly:
+            K.check_area_preservation(drv, poly, rng.randrange(12), fails, st, seg=2048); n += 1
+        if len(fails) > 10:
+            break
     return fails, {'evaluations': n, 'distinct_nontrivial': n, 'failing': len(fails), **st, 'samples': [{'poly': 'triangle of side 0.03 at (0.2, 0.1)', 'face': 4}]}
 
 def replay(f):
